@@ -990,6 +990,9 @@ class Interp:
             mdl = self.find_model(short)
         if mdl is not None:
             return ('model', mdl)
+        if m and m.group(3) in ('call', 'call_mut', 'call_once') and m.group(1).startswith('impl Fn') and \
+                re.match(r'^(Fn|FnMut|FnOnce)\b', mir.type_last(m.group(2))):
+            return ('closure', None)     # anonymous `impl Fn..` parameter: the value itself is the closure
         if m:
             tyfull = m.group(1)
             if tyfull.startswith('dyn '):
@@ -1054,7 +1057,13 @@ class Interp:
     def call_fn(self, f, args, callee=None):
         self.depth += 1
         if self.depth > 200:
-            raise Unsupported('call depth')
+            # a bound of the engine, reported as a candidate finding (unbounded recursion overflows the real stack);
+            # like every failure it counts only if the native replay confirms it, otherwise the run is inconclusive
+            self.depth -= 1
+            import collections
+            top = collections.Counter(g.last for g in self.curfn).most_common(3)
+            self.fail('call-depth', 'call depth bound 200 exceeded entering %s; most active: %s (unbounded recursion?)' % (
+                f.last, ', '.join('%s x%d' % t for t in top)))
         self.curfn.append(f)
         self.fn_used.add(f.name)
         h = self.hooks.get('enter:' + f.last) or self.hooks.get('enterfn:' + f.name)
